@@ -201,3 +201,30 @@ def flat_plane_contains_other_centre(rA, rB, L):
         if abs(float(n @ (np.asarray(O.centre(), dtype=float) - np.asarray(F.centre(), dtype=float)))) <= 1e-9 * L:
             return True
     return False
+
+
+def mpr_expand_portal_exact_tie(A, B):
+    """Symptom of the recorded finding KF-C02-mpr-symmetry-plane-tie: during portal refinement one of the triple products that
+    decide which portal vertex `_expand_portal` replaces is exactly 0 (the new support point, the centre of the Minkowski
+    difference and a portal vertex are coplanar with the origin).  The refinement is re-played with the library's own functions."""
+    from distance3d import mpr
+    from distance3d.minkowski import support_function
+    try:
+        res, portal = mpr._discover_portal(A, B, 100)
+        if res != mpr.PortalState.PORTAL_WAS_BUILT:
+            return False
+        tie = False
+        for _ in range(200):
+            sd = mpr._portal_direction(portal.v)
+            if mpr._encapsulates_origin(portal.v[1], sd):
+                return tie
+            v4, v41, v42 = support_function(A, B, sd)
+            if (not mpr._encapsulates_origin(v4, sd)) or mpr._portal_reach_tolerance(portal.v, v4, sd, 0.0001):
+                return tie
+            v4v0 = np.cross(v4, portal.v[0])
+            if any(float(portal.v[i].dot(v4v0)) == 0.0 for i in (1, 2, 3)):
+                tie = True
+            mpr._expand_portal(portal.v, portal.v1, portal.v2, v4, v41, v42)
+        return tie
+    except Exception:  # noqa
+        return False
